@@ -141,6 +141,8 @@ func runC17(c *engine.Ctx, tier string) {
 	o.Done(4)
 	sibling(c, "C17.4", pkgValuesV2, pkgValuesV3, [][2]string{{`\*configapi\.PathValue`, "configapi.PathValue"}, {`adminapi\.`, "configapi."}},
 		map[string]string{"NewChangeValue": "returns *PathValue in v2 and PathValue in v3: the two return statements differ by construction"})
+	// the rendered document reaches the plugin byte for byte (a dropped byte at a chunk boundary is a lost digit)
+	chunkCursorAs(c, "C17.6")
 }
 
 func findFunc(c *engine.Ctx, rel, name string) *engine.FuncInfo {
